@@ -589,6 +589,7 @@ def _do_dirty(ctx: Rec, unit: dict):
         ctx.count("dirty:" + key, n)
     sched_flag = 0 if isinstance(cfg, dict) else 1
     rngflag = int(iso.uses_global_rng(cfg)) if isinstance(cfg, dict) else 1
+    buildflag = int(iso.draws_at_build(cfg)) if isinstance(cfg, dict) else 1
     gs = cfg0.get("game", {}).get("seed")
     ctor = f"constructopt {iso.seed_text(gs if isinstance(gs, int) else None)}"
     reported = False
@@ -612,7 +613,7 @@ def _do_dirty(ctx: Rec, unit: dict):
                           {"type": "dirty-history", "scenario": label, "cfg": cfg if isinstance(cfg, dict) else str(cfg),
                            "history": [list(x) for x in res["history"]], "fresh_resets": res["fresh_resets"], "later": [list(x) for x in res["later"]], "diff": d})
         # model: used = instance 0, fresh = instance 1, same environment-level attributes; the seed argument goes to the model AS IT IS
-        lines = ["reset", f"new 0 7 1 0 {rngflag} {sched_flag}", f"new 1 7 1 0 {rngflag} {sched_flag}", f"ev 0 {ctor}"]
+        lines = ["reset", f"new 0 7 1 0 {rngflag} {sched_flag} 0 {buildflag}", f"new 1 7 1 0 {rngflag} {sched_flag} 0 {buildflag}", f"ev 0 {ctor}"]
         for op in res["history"]:
             lines.append(f"ev 0 resetopt {iso.seed_text(op[1])}" if op[0] == "reset" else f"ev 0 step {op[1] % 1000}")
         later_lines = [f"ev X resetopt {iso.seed_text(seed)}"] + [f"ev X step {op[1] % 1000}" for op in res["later"][1:]]
